@@ -68,7 +68,7 @@ Definition packed (a : address) : string :=
 (** Configuration._get_payload_id(value): the part after the try block *)
 Definition payload_id_text (value : pv) : res ident :=
   do ty <- match value with
-           | PStr s => Ok (if contains_char "#" s then ID_RFC822_ADDR else ID_FQDN)
+           | PStr s => Ok (if contains_char "@" s then ID_RFC822_ADDR else ID_FQDN)
            | PList _ | PDict _ => Ok ID_FQDN  (* membership test works; both branches then fail at .encode() *)
            | PNone | PBool _ | PInt _ => Raise TypeError   (* argument of type ... is not iterable *)
            end;
